@@ -34,6 +34,19 @@ pub fn alphabet() -> Vec<P> {
                 }
             }
         }
+        // pure check postings: a zero amount carrying an assertion
+        v.push(P::amt(acct, "0", "").with_bal(Bal::Val("1", "X")));
+        v.push(P::amt(acct, "0", "").with_bal(Bal::Val("0", "X")));
+        v.push(P::amt(acct, "0", "").with_bal(Bal::Zero));
+        v.push(P::amt(acct, "0", "X").with_bal(Bal::Val("1", "X")));
+        v.push(P::amt(acct, "0", "X").with_bal(Bal::Val("2", "X")));
+        // balances finer than the asserted figure: `= 0 X` is false for 0.4 X, `= 1 X` is false for 0.6 X
+        v.push(P::amt(acct, "0.4", "X"));
+        v.push(P::amt(acct, "0.4", "X").with_bal(Bal::Val("0", "X")));
+        v.push(P::amt(acct, "0.4", "X").with_bal(Bal::Val("0.4", "X")));
+        v.push(P::amt(acct, "0.4", "X").with_bal(Bal::Val("0.40", "X")));
+        v.push(P::amt(acct, "0.6", "X").with_bal(Bal::Val("1", "X")));
+        v.push(P::amt(acct, "-0.4", "X").with_bal(Bal::Val("1", "X")));
         v.push(P::amt(acct, "1", "X").with_bal(Bal::Val("1", "Y")));
         v.push(P::amt(acct, "1", "X").with_bal(Bal::Val("0", "Y")));
         v.push(P::amt(acct, "-1", "Y").with_bal(Bal::Val("2", "X")));
@@ -49,7 +62,7 @@ pub fn reduced(full: &[P]) -> Vec<P> {
             (None, Bal::Val(w, _)) => matches!(*w, "0" | "1" | "3"),
             (Some((v, _)), Bal::None) => matches!(*v, "1" | "-1"),
             (Some((v, c)), Bal::Zero) => *v == "1" && *c == "X" || *v == "-1" && *c == "X",
-            (Some((v, c)), Bal::Val(w, wc)) => c == wc && matches!((*v, *w), ("1", "1") | ("1", "2") | ("-1", "0") | ("1", "0")),
+            (Some((v, c)), Bal::Val(w, wc)) => (c == wc && matches!((*v, *w), ("1", "1") | ("1", "2") | ("-1", "0") | ("1", "0") | ("0.4", "0"))) || (c.is_empty() && *w == "1"),
         })
         .cloned()
         .collect()
